@@ -853,6 +853,18 @@ int main (int argc, char **argv)
 			else for (i = 0; i < (int) (sizeof kq / sizeof kq[0]); i++) { k = kq[i]; add_pt (codec, 8, k, 255 - k, 0, 0, k + 4, 0); if (k < 254) add_pt (codec, 8, k, 1, 0, 0, k + 4, 0); }
 			for (n = 2; n <= (thorough ? 24 : 12); n++) for (k = 1; k < n; k++) add_pt (codec, 8, k, n - k, 0, 0, k + 4, 0);
 		}
+		for (codec = 1; codec <= 2; codec++) {	/* mid-range sweep: EVERY k with a number of repair symbols well inside the range (derived from k), and the k == n-k diagonal */
+			for (k = 1; k <= 252; k++) { int r = 2 + (k * 11) % (253 - k); add_pt (codec, 8, k, r, 0, 0, k + 4, 0); if (k <= 127 && (thorough || k % 2 == codec % 2)) add_pt (codec, 8, k, k, 0, 0, k + 4, 0); }
+		}
+		{	/* every symbol length 41..2100 (thorough ..4200) on small codes, codec / alignment rotating with the length */
+			int L;
+			for (L = 41; L <= (thorough ? 4200 : 2100); L++) {
+				int al = (L / 3) % 4 == 0 ? 0 : (L / 3) % 8;
+				if (thorough || L % 3 == 0) add_pt (1, 8, 5, 4, 0, 0, L, al);
+				if (thorough || L % 3 == 1) add_pt (2, 8, 5, 4, 0, 0, L, al);
+				if (thorough || L % 3 == 2) add_pt (2, 4, 5, 4, 0, 0, L, al);
+			}
+		}
 		for (k = 1; k <= 14; k++) { add_pt (2, 4, k, 15 - k, 0, 0, 8, 0); PT[NPT - 1].slotmode = 8; }	/* every k x k minor of the m=4 reference generator is non-singular */
 		{	/* short symbols at every buffer alignment (encoder side of C07/C06) */
 			int L, al;
@@ -896,6 +908,14 @@ int main (int argc, char **argv)
 			/* low code rates with many rows: extra entries by the hundred (every r in a range, so that counts such as 256 are hit) */
 			for (k = 3; k <= 8; k++) for (N1 = 4; N1 <= 6; N1 += 2) for (r = (thorough ? 100 : 120); r <= (thorough ? 600 : 290); r++) add_pt (3, 0, k, r, N1, 1, k + 2, 0);
 			add_pt (3, 0, 56, 200, 4, 1, 58, 0); add_pt (3, 0, 100, 300, 6, 1, 102, 0); add_pt (3, 0, 100, 328, 4, 1, 102, 0); add_pt (3, 0, 128, 384, 4, 2, 130, 0); add_pt (3, 0, 200, 800, 6, 1, 202, 0);
+			/* mid-range sweep: every k of a range with rates, N1 and seeds derived from k (even and odd N1 alternate) */
+			for (k = 13; k <= (thorough ? 1500 : 500); k++) {
+				unsigned sd = (unsigned) (((unsigned long long) k * 1103515245ull + 12345ull) % 2147483646ull) + 1u;
+				r = 3 + (k * 7) % 61; N1 = 3 + k % 8; if (N1 > r) N1 = r; add_pt (3, 0, k, r, N1, (int) sd, k + 2, 0);
+				r = k / 2 + k % 7; N1 = 3 + (k / 8) % 8; if (N1 > r) N1 = r; add_pt (3, 0, k, r, N1, (int) sd + 1, k + 2, 0);
+				if (k % 3 == 0) { add_pt (3, 0, k, k, 4 + 2 * (k % 4), (int) sd + 2, k + 2, 0); }
+			}
+			for (N1 = 11; N1 <= 40; N1++) { add_pt (3, 0, 30 + N1, 40, N1, 77 + N1, 32 + N1, 0); add_pt (3, 0, 7, N1 + (N1 & 1), N1, 5, 9, 0); }
 			/* higher code rates: the claim is 'often' true there */
 			for (k = 30; k <= (thorough ? 400 : 120); k += (thorough ? 37 : 45)) for (r = 4; r <= 40; r += 9) for (N1 = 3; N1 <= 6 && N1 <= r; N1++) for (s = 1; s <= 3; s++) add_pt (3, 0, k, r, N1, s, k + 2, 0);
 		} else {
@@ -925,6 +945,23 @@ int main (int argc, char **argv)
 					add_pt (3, 0, 9, 5, 4, 2, LONGLENS[li], 0);
 					if (LONGLENS[li] <= 20000) { add_pt (3, 0, 9, 5, 4, 2, LONGLENS[li], 0); PT[NPT - 1].slotmode = 5; add_pt (3, 0, 40, 20, 5, 123, LONGLENS[li], 0); }
 				}
+			}
+			{	/* mid-range sweep: EVERY k of a range (neither small nor next to a limit or a power of two), with code rates,
+				 * N1 and seeds derived from k so that arithmetic coincidences (k == r, N1 == r, r | k, k | r*N1 ...) occur on the way;
+				 * plus every N1 up to 40 on a few shapes (the grid above stops at 10) */
+				int kmax = thorough ? 3000 : 800, j;
+				for (k = 13; k <= kmax; k++) {
+					int rr[4]; unsigned sd = (unsigned) (((unsigned long long) k * 1103515245ull + 12345ull) % 2147483646ull) + 1u;
+					rr[0] = 3 + (k * 7) % 61; rr[1] = k / 2 + k % 7; rr[2] = k; rr[3] = 3 + k % 9;
+					for (j = 0; j < 4; j++) {
+						r = rr[j];
+						if (j >= 2 && (k % 3) != j - 2) continue;	/* k == r and N1 == r points: a third of the k each */
+						N1 = j == 3 ? r : 3 + (k + j) % 8; if (N1 > r) N1 = r;
+						if ((long) k * (k + r) > 1500000 && !thorough) continue;
+						add_pt (3, 0, k, r, N1, (int) (sd + (unsigned) j), k + 2, k % NPREFIX > 1 && k > 100 ? 0 : k % NPREFIX);
+					}
+				}
+				for (N1 = 11; N1 <= 40; N1++) { add_pt (3, 0, 30 + N1, 40, N1, 77 + N1, 32 + N1, 0); add_pt (3, 0, 7, N1 + (N1 & 1), N1, 5, 9, 0); add_pt (3, 0, 211, 45 + N1, N1, 1000 + N1, 213, 0); }
 			}
 			/* very large blocks draw with large maxv (up to N1*k = 140000): many seeds, structural comparison only.
 			 * Reached by no test; a PRNG scaling that differs from the RFC expression in the last unit shows here. */
